@@ -18,6 +18,7 @@ func init() {
 		ruleHybridRank(r, k)
 		// the modalities the hybrid search composes (anchors: fusion.go, flat / bm25 / metadata search)
 		ruleFusions(r, "C05")
+		ruleFusionDefaults(r, "C05.DEFAULTS")
 		ruleDocumentFilter(r, "C05.FILTER")
 		nb := 0
 		for _, T := range builderTypes(r.W, "HybridSearch", "MetadataSearch", "TextSearch") {
